@@ -321,7 +321,13 @@ def save_hdf5(h5path, indent, user_rate, user_name, user_comment, h5mode="a"):
         if idd in ana:
             # Only allow overriding of user data if fit matches.
             # Otherwise, the rating might be wrong.
-            if not np.allclose(indent["fit"], ana[idd]["fit"], equal_nan=True):
+            fit_old = ana[idd]["fit"][...]
+            # The tolerance must scale with the data: forces are of the
+            # order of 1e-9 N, far below the default `atol` of 1e-8.
+            valid = np.isfinite(fit_old)
+            atol = 1e-6 * np.max(np.abs(fit_old[valid])) if valid.any() else 0
+            if not np.allclose(indent["fit"], fit_old, rtol=0, atol=atol,
+                               equal_nan=True):
                 raise ValueError("Cannot store rating for different fit in "
                                  "same rating container!")
             out = ana[idd]
